@@ -10,6 +10,13 @@ row-order part, serialised to text, permuted, and loaded through
 ModelLoader.input + build_component), and every entry call -- from python and
 from an OAL caller -- is compared with the reference evaluator.
 
+The model also holds constants modeled as 0, false, "" and 0.0 (read from python
+and, by their bare names, in OAL expressions, conditions, where clauses and
+arguments) and a class C whose operations count (instance based, recursive
+through self) and total (class based) are named like attributes of the class;
+they are invoked from OAL expressions, statements, where clauses, loop
+conditions, other operations, and from python.
+
 History family: for every body of the derived attribute (total ones and
 partial ones that are erroneous on some populations) every executable sequence
 of HIST_LEN steps over {python read, read by an OAL function, create, write N,
@@ -32,6 +39,12 @@ ASSUMPTIONS = [
     'two-component family: the entries are run on a component while a component of another model, built after it, is alive; '
     'callables, external entities, enumerations, constants and created instances must be those of the component they are used on',
     'programs the reference rejects (diverging recursion within depth/fuel, ill-typed) are skipped and counted',
+    'a constant reads as its modeled value whatever that value is (0, false, the empty string and 0.0 are values like any other)',
+    'an attribute and an operation of one class may have the same name: `c.count` reads the attribute, `c.count(by: 1)` invokes the '
+    'instance-based operation with self bound to c, `C::total(k: 1)` the class-based one; from python the attribute value is what '
+    'the instance delivers under that name and the operation is reached through the class (type(c).count(c, by=1))',
+    'the entries over constants and class C (no body slot varies them) run on the default call system and on every single deviation '
+    'from it, with a second component alive, and on the permuted model texts',
     'histories: a read of a derived attribute whose body is erroneous on the current data (attribute access through an empty '
     'selection, division by zero in a nested call) has no defined outcome -- it is performed and whatever it delivers or raises is '
     'ignored; every read the reference accepts, before or after such a rejected read, must deliver the value computed from the '
@@ -49,7 +62,10 @@ SELF = ('self',)
 SF = lambda n: ('field', SELF, n)
 IF = lambda c, blk, elifs=(), els=None: ('if', c, list(blk), [(ec, list(eb)) for ec, eb in elifs], els, [False] * (1 + len(elifs)))
 
-SCHEMA = relmodel.Schema('c15', [('A', [('Id', 'unique_id'), ('N', 'integer'), ('Name', 'string')])], [], [('A', 'I1', ['Id'])])
+SCHEMA = relmodel.Schema('c15', [('A', [('Id', 'unique_id'), ('N', 'integer'), ('Name', 'string')]),
+                                 # class C: every operation has the name of an attribute of the class
+                                 ('C', [('Id', 'unique_id'), ('count', 'integer'), ('total', 'integer')])],
+                        [], [('A', 'I1', ['Id']), ('C', 'I1', ['Id'])])
 
 # ---- body menus -------------------------------------------------------------
 BODIES = {
@@ -123,6 +139,26 @@ BODIES = {
         ('B3', [ASG(V('x'), P('p')), RET(('ncall', 'A', 'cop', [('k', V('x'))]))]),
     ],
 }
+# class C (fixed bodies).  count and total are attributes AND operations of the class: `c.count` reads the attribute,
+# `c.count(by: 1)` invokes the instance-based operation, `C::total(k: 1)` the class-based one.
+IC = lambda h, name, **kw: ('icall', h, name, sorted(kw.items()))
+C_BODIES = {
+    # count(by): add 1 to the attribute count `by` times (recursive call through self), deliver the attribute
+    'count': [IF(B('<=', P('by'), I(0)), [RET(SF('count'))]), ASG(SF('count'), B('+', SF('count'), I(1))),
+              ASG(V('x'), B('-', P('by'), I(1))), ASG(V('r'), IC(SELF, 'count', by=V('x'))),
+              IF(B('!=', V('x'), B('-', P('by'), I(1))), [RET(B('-', I(0), I(1)))]), RET(V('r'))],
+    # total(k): class based; reads the attributes total and count and invokes count on every instance
+    'total': [('selfrom', 'many', 'cs', 'C', None, True), ASG(V('t'), P('k')),
+              ('foreach', 'c', 'cs', [ASG(V('t'), B('+', B('+', V('t'), ('field', V('c'), 'total')), B('*', IC(V('c'), 'count', by=I(0)), I(10))))], True),
+              RET(V('t'))],
+    # bump(by): no attribute of this name; invokes count as a statement and inside an expression
+    'bump': [('call', None, IC(SELF, 'count', by=P('by'))), RET(B('+', B('*', SF('count'), I(100)), IC(SELF, 'count', by=I(0))))],
+}
+C_PARAMS = {'count': [('by', 'integer')], 'total': [('k', 'integer')], 'bump': [('by', 'integer')]}
+C_INSTANCE_BASED = {'count': True, 'total': False, 'bump': True}
+# constants; the last four are modeled with the values python takes as false
+CONSTANTS = [('TEN', 'integer', '10', 10), ('GREETING', 'string', 'hello', 'hello'), ('YES', 'boolean', 'true', True), ('HALF', 'real', '0.5', 0.5),
+             ('ZERO', 'integer', '0', 0), ('NO', 'boolean', 'false', False), ('BLANK', 'string', '', ''), ('NIL', 'real', '0.0', 0.0)]
 B2_BODY = [RET(B('+', P('p'), I(100)))]          # EE2::b
 FB_BODY = [RET(B('+', P('p'), I(1000)))]         # ::b
 PARAMS = {'f': [('n', 'integer')], 'g': [('n', 'integer'), ('m', 'integer')], 'h': [('b', 'boolean'), ('n', 'integer')],
@@ -250,6 +286,39 @@ def build_bp_model(system):
             if pp is not None:
                 relate(o_tparm, pp, 124, 'succeeds')
             pp = o_tparm
+    # class C: attributes count, total; operations count (instance based), total (class based), bump (instance based)
+    c_obj = pe(m.new('O_OBJ', Name='C', Key_Lett='C', Numb=2))
+    prev = None
+    c_attrs = {}
+    for name, ty in (('Id', 'unique_id'), ('count', 'integer'), ('total', 'integer')):
+        o_attr = m.new('O_ATTR', Name=name, Root_Nam=name)
+        relate(o_attr, c_obj, 102)
+        relate(o_attr, dt(ty), 114)
+        o_battr = m.new('O_BATTR')
+        relate(o_battr, o_attr, 106)
+        relate(m.new('O_NBATTR'), o_battr, 107)
+        if prev is not None:
+            relate(o_attr, prev, 103, 'succeeds')
+        prev = o_attr
+        c_attrs[name] = o_attr
+    c_id = m.new('O_ID', Oid_ID=0)
+    relate(c_id, c_obj, 104)
+    c_oida = m.new('O_OIDA', localAttributeName='Id')
+    relate(c_oida, c_id, 105)
+    relate(c_oida, c_attrs['Id'], 105)
+    prev = None
+    for name in ('count', 'total', 'bump'):
+        o_tfr = m.new('O_TFR', Name=name, Instance_Based=C_INSTANCE_BASED[name], Suc_Pars=1,
+                      Action_Semantics_internal=body_text(C_BODIES[name]))
+        relate(o_tfr, c_obj, 115)
+        relate(o_tfr, dt('integer'), 116)
+        if prev is not None:
+            relate(o_tfr, prev, 125, 'succeeds')
+        prev = o_tfr
+        for pname, pty in C_PARAMS[name]:
+            o_tparm = m.new('O_TPARM', Name=pname)
+            relate(o_tparm, o_tfr, 117)
+            relate(o_tparm, dt(pty), 118)
     # functions
     for slot in ('f', 'g', 'h'):
         s_sync = pe(m.new('S_SYNC', Name=slot, Suc_Pars=1, Action_Semantics_internal=body_text(BODIES[slot][system[slot]][1])))
@@ -299,7 +368,7 @@ def build_bp_model(system):
     # constants
     csp = pe(m.new('CNST_CSP', InformalGroupName='K'))
     prev = None
-    for name, ty, value in (('TEN', 'integer', '10'), ('GREETING', 'string', 'hello'), ('YES', 'boolean', 'true'), ('HALF', 'real', '0.5')):
+    for name, ty, value, _ in CONSTANTS:
         syc = m.new('CNST_SYC', Name=name)
         relate(syc, csp, 1504)
         relate(syc, dt(ty), 1500)
@@ -317,12 +386,15 @@ def reference_callables(system):
     functions = dict((s, E.Callable(s, PARAMS[s], BODIES[s][system[s]][1])) for s in ('f', 'g', 'h'))
     operations = {('A', 'op'): E.Callable('op', PARAMS['op'], BODIES['op'][system['op']][1], kind='operation', owner='A'),
                   ('A', 'cop'): E.Callable('cop', PARAMS['cop'], BODIES['cop'][system['cop']][1], kind='class_operation', owner='A')}
+    for name in C_BODIES:
+        operations[('C', name)] = E.Callable(name, C_PARAMS[name], C_BODIES[name], owner='C',
+                                             kind='operation' if C_INSTANCE_BASED[name] else 'class_operation')
     bridges = {('EE', 'b'): E.Callable('b', PARAMS['b'], BODIES['b'][system['b']][1], kind='bridge'),
                ('EE2', 'b'): E.Callable('b', PARAMS['b'], B2_BODY, kind='bridge')}
     functions['b'] = E.Callable('b', PARAMS['b'], FB_BODY)
     derived = {('A', 'D'): E.Callable('D', [], derived_statements('D', BODIES['D'][system['D']][1], as_return=True), kind='derived', owner='A')}
     return dict(functions=functions, operations=operations, bridges=bridges, derived=derived,
-                enums={'Color': list(ENUM)}, constants={'TEN': 10, 'GREETING': 'hello', 'YES': True, 'HALF': 0.5})
+                enums={'Color': list(ENUM)}, constants=dict((name, value) for name, _, _, value in CONSTANTS))
 
 
 # ---- entries ---------------------------------------------------------------------
@@ -385,7 +457,79 @@ def entries():
     ]
     for name, body in callers:
         out.append((name, [2, 0], 'oal', body))
+    return out + extra_entries()
+
+
+def extra_entries():
+    '''Entries over the parts of the model that no body slot varies: the constants modeled with values python takes as false,
+    and class C whose operations are named like its attributes.  They run on the default call system and on every single
+    deviation from it (system_task), with a second component alive, and on permuted model texts.'''
+    out = []
+    C = lambda name: V(name)
+    mkc = lambda var, count, total=0: [('create', var, 'C'), ASG(('field', V(var), 'count'), I(count)), ASG(('field', V(var), 'total'), I(total))]
+    out.append(('py:operations named like attributes', [], 'pyclash', None))
+    callers = [
+        ('oal:constants 0, false, "", 0.0 in expressions',
+         [ASG(V('x'), C('ZERO')), ASG(V('y'), B('+', C('TEN'), C('ZERO'))), ASG(V('s'), B('+', B('+', C('BLANK'), C('GREETING')), C('BLANK'))),
+          ASG(V('r'), B('+', C('NIL'), C('HALF'))),
+          IF(B('and', B('and', B('==', V('s'), ('str', 'hello')), B('==', V('r'), ('real', '0.5'))), B('==', C('NO'), ('bool', 'false'))),
+             [RET(B('+', B('*', V('y'), I(100)), V('x')))]),
+          RET(B('-', I(0), I(1)))]),
+        ('oal:constants 0, false, "", 0.0 in conditions',
+         [ASG(V('n'), I(0)),
+          IF(C('NO'), [ASG(V('n'), I(1))], [(C('YES'), [ASG(V('n'), I(2))])], [ASG(V('n'), I(3))]),
+          ('while', C('NO'), [ASG(V('n'), I(99)), ('break',)], True),
+          ('while', B('<', V('n'), C('ZERO')), [ASG(V('n'), I(98)), ('break',)], True),
+          IF(B('and', B('and', ('un', 'not', C('NO')), B('==', C('ZERO'), I(0))), B('and', B('==', C('BLANK'), ('str', '')), B('==', C('NIL'), ('real', '0.0')))),
+             [ASG(V('n'), B('+', V('n'), I(10)))]),
+          IF(B('or', C('NO'), B('!=', C('ZERO'), I(0))), [ASG(V('n'), B('+', V('n'), I(100)))]),
+          RET(V('n'))]),
+        ('oal:constants 0, false as arguments',
+         [RET(B('+', B('+', B('*', F_('f', n=C('ZERO')), I(10000)), B('*', F_('g', n=C('ZERO'), m=C('TEN')), I(100))),
+                F_('h', b=C('NO'), n=C('ZERO'))))]),
+        ('oal:constants 0, "" in where clauses',
+         [('selfrom', 'many', 'zs', 'A', B('==', ('field', ('selected',), 'N'), C('ZERO')), True),
+          ('selfrom', 'many', 'bs', 'A', B('==', ('field', ('selected',), 'Name'), C('BLANK')), True),
+          ('selfrom', 'any', 'n', 'A', B('and', C('NO'), B('==', ('field', ('selected',), 'N'), C('ZERO'))), True),
+          IF(('un', 'not_empty', V('n')), [RET(B('-', I(0), I(1)))]),
+          RET(B('+', B('*', ('un', 'cardinality', V('zs')), I(10)), ('un', 'cardinality', V('bs'))))]),
+        ('oal:operation named like an attribute in an expression',
+         mkc('c', 5) + [ASG(V('x'), I(9)), ASG(V('r'), IC(V('c'), 'count', by=I(2))),
+                        RET(B('+', B('+', B('*', V('x'), I(10000)), B('*', V('r'), I(100))), ('field', V('c'), 'count')))]),
+        ('oal:operation named like an attribute as a statement',
+         mkc('c', 1) + [('call', None, IC(V('c'), 'count', by=I(3))), RET(('field', V('c'), 'count'))]),
+        ('oal:operation named like an attribute in a where clause',
+         mkc('c1', 1) + mkc('c2', 3) + mkc('c3', 4) +
+         [('selfrom', 'many', 'cs', 'C', B('>=', IC(('selected',), 'count', by=I(0)), I(3)), True),
+          ('selfrom', 'any', 'c', 'C', B('==', IC(('selected',), 'count', by=I(0)), ('field', ('selected',), 'count')), True),
+          RET(B('+', B('*', ('un', 'cardinality', V('cs')), I(10)), ('field', V('c'), 'count')))]),
+        ('oal:operation named like an attribute in a loop condition',
+         mkc('c', 0) + [ASG(V('i'), I(0)),
+                        ('while', B('<', IC(V('c'), 'count', by=I(1)), I(4)), [ASG(V('i'), B('+', V('i'), I(1)))], True),
+                        RET(B('+', B('*', V('i'), I(10)), ('field', V('c'), 'count')))]),
+        ('oal:operation named like an attribute invoked by another operation',
+         mkc('c', 2) + [RET(B('+', B('*', IC(V('c'), 'bump', by=I(2)), I(10)), ('field', V('c'), 'count')))]),
+        ('oal:class operation named like an attribute',
+         mkc('c1', 1, 7) + mkc('c2', 2, 30) + [RET(B('+', ('ncall', 'C', 'total', [('k', I(1000))]), ('field', V('c2'), 'total')))]),
+    ]
+    for name, body in callers:
+        out.append((name, [2, 0], 'oal', body))
     return out
+
+
+_EXTRA = None
+
+
+def is_extra(entry):
+    global _EXTRA
+    if _EXTRA is None:
+        _EXTRA = set(e[0] for e in extra_entries())
+    return entry[0] in _EXTRA
+
+
+def near_default(system):
+    '''The default call system or a single deviation from it.'''
+    return sum(1 for s in SLOTS if system[s] != 0) <= 1
 
 
 def norm(v):
@@ -440,13 +584,21 @@ def run_reference(system, entry):
             res[i] = calls[i]()
         value = [res[0], res[1], res[2]]
     elif kind == 'pysymbols':
-        value = [0, 1, 2, 10, 'hello', True, 0.5]
+        value = [0, 1, 2] + [v for _, _, _, v in CONSTANTS]
+    elif kind == 'pyclash':
+        c1 = E.Handle('C', ref.new('C', dict(count=5, total=7)))
+        c2 = E.Handle('C', ref.new('C', dict(count=1, total=30)))
+        ops = ev.operations
+        value = [ev.run(ops[('C', 'count')].body, dict(by=2), c1), ev.read_attr(c1, 'count'), ev.read_attr(c2, 'count'),
+                 ev.run(ops[('C', 'bump')].body, dict(by=1), c2), ev.read_attr(c2, 'count'),
+                 ev.run(ops[('C', 'total')].body, dict(k=1000)), ev.read_attr(c1, 'total')]
     elif kind == 'oal':
         # constants are visible by their bare name
         value = ev.run([ASG(V(k), _lit(v)) for k, v in ()] + list(payload))
     else:
         raise ValueError(kind)
     pop_after = [[ref.insts[i].values['N'], ref.insts[i].values['Name']] for i in ref.order['A']]
+    pop_after += [[ref.insts[i].values['count'], ref.insts[i].values['total']] for i in ref.order['C']]
     return value, pop_after
 
 
@@ -500,11 +652,14 @@ def run_real(bp_model, system, entry, other_bp=None):
             value = [res[0], res[1], res[2]]
         elif kind == 'pysymbols':
             c = dom.find_symbol('Color')
-            value = [c.Red, c.Green, c.Blue, dom.find_symbol('TEN'), dom.find_symbol('GREETING'), dom.find_symbol('YES'),
-                     dom.find_symbol('HALF')]
+            value = [c.Red, c.Green, c.Blue] + [dom.find_symbol(name) for name, _, _, _ in CONSTANTS]
+        elif kind == 'pyclash':
+            # an attribute value lives in the instance, the operation of the same name in its class
+            c1, c2 = dom.new('C', count=5, total=7), dom.new('C', count=1, total=30)
+            value = [type(c1).count(c1, by=2), c1.count, c2.count, c2.bump(by=1), c2.count, dom.find_class('C').total(k=1000), c1.total]
         elif kind == 'oal':
             value = dom.find_symbol('main')()
-    pop_after = [[i.N, i.Name] for i in dom.select_many('A')]
+    pop_after = [[i.N, i.Name] for i in dom.select_many('A')] + [[i.count, i.total] for i in dom.select_many('C')]
     if dom2 is not None:
         other_pop = [i.N for i in dom2.select_many('A')]
         if other_pop != [99]:
@@ -562,6 +717,8 @@ def system_task(ctx, task):
         bp = build_bp_model(system)
         ctx.count('systems')
         for e in es:
+            if is_extra(e) and not near_default(system):
+                continue
             st = compare_entry(ctx, system, e, bp, 'api')
             if st == 'ok':
                 ctx.distinct('nontrivial', (repr(sorted(system.items())), e[0]))
@@ -570,7 +727,7 @@ def system_task(ctx, task):
 def two_component_task(ctx, task):
     '''The entries on a component of system s1 while a component of system s2 (built later) is alive.'''
     tier, pairs = task
-    es = [e for e in entries() if e[2] in ('pyfunc', 'pycop', 'pybridge', 'pyop', 'pysymbols', 'pysamename', 'oal')]
+    es = [e for e in entries() if e[2] in ('pyfunc', 'pycop', 'pybridge', 'pyop', 'pysymbols', 'pysamename', 'pyclash', 'oal')]
     for s1, s2 in pairs:
         bp1, bp2 = build_bp_model(s1), build_bp_model(s2)
         ctx.count('component_pairs')
@@ -759,8 +916,14 @@ def permutations_of(stmts, table, limit=24):
     rows = [stmts[i] for i in idx]
     if len(rows) < 2:
         return
-    perms = list(itertools.permutations(range(len(rows)))) if len(rows) <= 4 else \
-        [tuple(reversed(range(len(rows))))] + [tuple(range(k, len(rows))) + tuple(range(k)) for k in range(1, len(rows))]
+    n = len(rows)
+    if n <= 4:
+        perms = list(itertools.permutations(range(n)))
+    else:
+        # the reversed table, every rotation, every exchange of two neighbouring rows
+        perms = [tuple(range(n)), tuple(reversed(range(n)))] + [tuple(range(k, n)) + tuple(range(k)) for k in range(1, n)]
+        perms += [tuple(range(k)) + (k + 1, k) + tuple(range(k + 2, n)) for k in range(n - 1)]
+        limit = max(limit, len(perms))
     for perm in perms[1:limit]:
         out = list(stmts)
         for pos, j in zip(idx, perm):
@@ -775,7 +938,9 @@ def roworder_task(ctx, task):
     bp = build_bp_model(system)
     text = xtuml.serialize_instances(bp)
     stmts = split_statements(text)
-    es = [e for e in entries() if e[2] in ('pysymbols', 'pyfunc', 'pyop', 'pyderived') or e[0] in ('oal:enumerators', 'oal:permuted parameters', 'oal:operation')]
+    es = [e for e in entries() if e[2] in ('pysymbols', 'pyfunc', 'pyop', 'pyderived', 'pyclash') or
+          e[0] in ('oal:enumerators', 'oal:permuted parameters', 'oal:operation', 'oal:constants 0, false, "", 0.0 in conditions',
+                   'oal:constants 0, false, "", 0.0 in expressions', 'oal:class operation named like an attribute')]
     variants = [('identity', stmts), ('reversed file', stmts[::-1])]
     for perm, out in permutations_of(stmts, table):
         variants.append((perm, out))
@@ -862,6 +1027,10 @@ def coverage(ctx):
              'were compared successfully (all involve at least one call into an OAL body); plus, per body of the derived attribute, '
              'every executable step sequence of the stated length over the history alphabet that ends with a read',
         bounds=dict(bodies=dict((s, [b[0] for b in BODIES[s]]) for s in SLOTS), entries=len(entries()),
+                    entries_over_constants_and_same_named_members=len(extra_entries()),
+                    constants=dict((name, value) for name, _, value, _ in CONSTANTS),
+                    class_C=dict(attributes=['Id', 'count', 'total'], operations=dict((n, 'instance' if C_INSTANCE_BASED[n] else 'class') for n in C_BODIES)),
+                    row_permutations='tables of up to four rows: every order; longer ones: the reversed table, every rotation, every exchange of two neighbouring rows',
                     systems='full product' if ctx.thorough else 'default + every single deviation + product of a sub-menu',
                     permuted_tables=PERM_TABLES,
                     bodies_outside_the_call_system_product=dict((s, [b[0] for b in BODIES[s][n:]]) for s, n in N_PRODUCT.items()),
